@@ -39,9 +39,28 @@ def check(ctx):
     from props import c11
     for proto in ("ipfix", "v9"):
         c11.killed_while_saving(ctx, proto, codec.driver(ctx, proto), codec.elements_dir(ctx, extra=gen_flow.ext_yaml(), name="elements_b"))
-    # ---- (2) end to end
+    # ---- (2) end to end; next to it a collector whose listeners have heard nothing for a while when the signal comes
+    import threading
+    quiet = {}
+    th = threading.Thread(target=lambda: quiet.update(long_silence(ctx, thorough)), daemon=True)
+    th.start()
     end_to_end(ctx, thorough)
     end_to_end(ctx, thorough, bind="127.0.0.1")
+    th.join(timeout=120)
+    if "error" in quiet or not quiet:
+        raise vlib.Infra("long-silence stage: %s" % quiet.get("error", "did not finish"))
+    for case in quiet["cases"]:
+        ctx.count(["silence", case["silent_s"], case["busy"], ctx.seed])
+        if case["rc"] is None:
+            ctx.violation("the collector was still running 10 s after %s that came after %.1f s without a datagram on %s" %
+                          (case["signal"], case["silent_s"], "any port" if not case["busy"] else "three of the four ports"), case, key="e2e-hang")
+        elif case["rc"] != 0:
+            ctx.violation("the collector exited with status %s on %s after %.1f s of silence" % (case["rc"], case["signal"], case["silent_s"]), case, key="e2e-status")
+        elif case["secs"] > 5:
+            ctx.violation("the collector took %.1f s to exit on %s that came after %.1f s without a datagram on %s" %
+                          (case["secs"], case["signal"], case["silent_s"], "any port" if not case["busy"] else "three of the four ports"), case, key="e2e-slow")
+        ctx.extra.setdefault("shutdowns", []).append({"bind": "wildcard", "scenario": "silent for %.1f s%s" % (case["silent_s"], ", ipfix busy" if case["busy"] else ""),
+                                                      "signal": case["signal"], "exit": case["rc"], "secs": round(case["secs"], 2)})
 
 
 def full_queue_shutdown(ctx, thorough, protos, mirror):
@@ -79,6 +98,41 @@ def full_queue_shutdown(ctx, thorough, protos, mirror):
         elif not r["cache_loads"]:
             ctx.violation("%s: the template cache file written at shutdown does not load" % proto, {"proto": proto}, key=proto + ":cache")
         ctx.traces_validated += 1
+
+
+def long_silence(ctx, thorough):
+    """'all traffic histories before the signal (idle, ...)': the signal arrives after the listeners have heard nothing for 3 to 16
+    seconds (all four of them, or all but one).  Runs beside the other end-to-end cycles; only reports what it measured."""
+    try:
+        binary = ctx.go_build_bin("vflow")
+        d = ctx.subdir("e2e15quiet")
+        sink = e2e.Sink()
+        sink.start()
+        col = e2e.Collector(ctx, binary, d, sink.port, workers=2)
+        senders = e2e.Senders(2)
+        src = sorted(senders.socks)[0]
+        cases = []
+        try:
+            plan = [(3.4, False), (7.6, False), (7.6, True)] + ([(15.7, False), (15.7, True)] if thorough else [])
+            for k, (silent, busy) in enumerate(plan):
+                col.start()
+                t0 = time.time()
+                n = 0
+                while time.time() - t0 < silent:
+                    if busy:
+                        senders.send(src, col.ports["ipfix"], c04.tpl_msg("ipfix", 300 + n % 5, 1) if n % 2 == 0 else c04.data_msg("ipfix", 300 + n % 5))
+                        n += 1
+                    time.sleep(0.05)
+                sig = signal.SIGINT if k % 2 else signal.SIGTERM
+                rc, secs = col.stop(sig, wait=10)
+                cases.append({"silent_s": silent, "busy": busy, "signal": sig.name, "rc": rc, "secs": secs})
+        finally:
+            col.kill()
+            sink.close()
+            senders.close()
+        return {"cases": cases}
+    except Exception as e:
+        return {"error": repr(e)}
 
 
 def end_to_end(ctx, thorough, bind=""):
